@@ -36,7 +36,7 @@ static const PropDef *find_prop(const std::string &id) { for (auto &p : PROPS) i
 static std::vector<CpuModel> g_grid;
 static std::vector<std::string> g_grid_names;
 static void build_grid() {
-    static const uint32_t maxleafs[] = {1, 4, 6, 7, 13, 27};
+    static const uint32_t maxleafs[] = {1, 2, 4, 6, 7, 13, 27};
     static const uint64_t xcr0s[] = {1, 3, 7, 0xE7};
     static const uint32_t l1x[] = {0x7ffafbffu & ~((1u << 26) | (1u << 27) | (1u << 28)), 0u};
     // hardware feature sets are kept consistent (AVX => SSE2; AVX2 without AVX only as a masked leaf 1); everything else is a free dimension
@@ -53,7 +53,10 @@ static void build_grid() {
 static const int INIT_KINDS[] = {CTR128, CTR64, MCTR, P128, P64, PM};
 static Plan gen_grid(Rng rng, uint64_t run) {
     Gen G(rng);
-    int kind = INIT_KINDS[run % 6]; int model = (int)((run / 6) % g_grid.size());
+    // the cells are visited in a scrambled order (7919 is coprime to the number of cells), so that the third of the grid
+    // the quick tier enumerates is spread over every dimension instead of being one contiguous range of max-leaf values
+    uint64_t full = 6ULL * g_grid.size(), cell = (run % full) * 7919ULL % full;
+    int kind = INIT_KINDS[cell % 6]; int model = (int)(cell / 6);
     int s = G.add_slot(kind);
     // three inits per cell in different junk register/stack contexts; the third one under memory pressure (its first
     // allocation fails): if an implementation then still reports success, the back end must nevertheless be the widest one
@@ -184,6 +187,7 @@ static Outcome evaluate(const PropDef &pd, const Plan &plan, uint64_t seed, uint
         break;
     }
     case M_DUAL: {
+        c.allow_odd = true;      // the oracle is differential (world A against world B): calls without a model are decided too
         RunResult a = execute(plan, c); absorb(a, "world A");
         if (!a.viol.empty()) return O;
         ExecCfg c2 = c; c2.world = mix64(c.world ^ 0xB0B0B0B0ULL) | 1;
@@ -357,6 +361,7 @@ static bool read_replay(const std::string &path, Replay &r) {
 
 // ------------------------------------------------------------------------- minimisation (delta debugging, forked trials)
 static int g_trials = 0;
+static bool g_min_hang = false;     // the violation being minimised is a call that never returned
 // does the plan still produce a violation of invariant `inv`?  Runs in a forked child so that
 // anything the trial does to the process cannot leak into the next trial.
 static std::string classify(const PropDef &pd, const Plan &p, const Violation &v);
@@ -366,6 +371,7 @@ static bool still_fails(const PropDef &pd, const Plan &p, uint64_t seed, uint64_
     fflush(stdout); fflush(stderr);
     pid_t pid = fork();
     if (pid == 0) {
+        if (g_min_hang) install_watchdog(2);
         Outcome o = evaluate(pd, p, seed, run, false);
         bool hit = false; for (auto &v : o.viol) if (v.inv == inv && (g_target_sig.empty() || classify(pd, p, v) == g_target_sig)) hit = true;
         _exit(hit ? 1 : 0);
@@ -378,7 +384,10 @@ static bool still_fails(const PropDef &pd, const Plan &p, uint64_t seed, uint64_
 static Plan minimise(const PropDef &pd, Plan p, uint64_t seed, uint64_t run, const std::string &inv) {
     // ddmin over the operation list
     size_t n = 2;
-    while (p.ops.size() >= 2 && g_trials < 1500) {
+    // every reproducing trial of a hang costs the watchdog budget: fewer of them
+    const bool hang = g_min_hang;
+    const int cap1 = hang ? 14 : 1500, cap2 = hang ? 18 : 2500;
+    while (p.ops.size() >= 2 && g_trials < cap1) {
         size_t chunk = (p.ops.size() + n - 1) / n; bool reduced = false;
         for (size_t start = 0; start < p.ops.size(); start += chunk) {
             Plan q = p; size_t end = std::min(start + chunk, q.ops.size());
@@ -388,7 +397,7 @@ static Plan minimise(const PropDef &pd, Plan p, uint64_t seed, uint64_t run, con
         if (!reduced) { if (chunk <= 1) break; n = std::min(n * 2, p.ops.size()); }
     }
     // per-argument shrinking
-    for (size_t i = 0; i < p.ops.size() && g_trials < 2500; ++i) {
+    for (size_t i = 0; i < p.ops.size() && g_trials < cap2; ++i) {
         Op &o = p.ops[i];
         if ((o.code == OP_ENC || o.code == OP_PENC || o.code == OP_PDEC) && !(o.flags & F_CHAIN)) {
             unsigned bs = 8;
@@ -449,6 +458,8 @@ static void worker_main(const PropDef &pd, uint64_t seed, uint64_t first, uint64
             fprintf(f, "X run %llu: %s\n", (unsigned long long)i, s.c_str());
         }
         g_shared->done_runs[w] = W.runs;
+        // a tree on which calls hang, or on which hundreds of histories fail, is decided: do not spend the budget re-deciding it
+        if (g_wd_timeouts >= 3 || W.violations >= 300) break;
     }
     g_shared->cur_run[w] = ~0ULL;
     fprintf(f, "S runs %llu\nS lib_calls %llu\nS ops %llu\nS skipped %llu\nS executions %llu\n", (unsigned long long)W.runs, (unsigned long long)W.lib_calls, (unsigned long long)W.ops, (unsigned long long)W.skipped, (unsigned long long)W.executions);
@@ -576,6 +587,7 @@ int main(int argc, char **argv) {
     std::stable_sort(raws.begin(), raws.end(), [&](const RawV &a, const RawV &b) { return known.count(a.sig) < known.count(b.sig); });
     for (auto &rv : raws) {
         if (per_sig[rv.sig] >= 1 || finals.size() >= 8) continue;
+        if (rv.inv == "no-progress" && per_sig["(hangs)"]++ >= 1) continue;     // every confirmation of a hang costs the watchdog budget: one is reported
         ++per_sig[rv.sig];
         Plan p = make_plan(*pd, seed, rv.run);
         if (rv.inv != "sanitizer-report" && rv.inv != "worker-death") {
@@ -587,6 +599,7 @@ int main(int argc, char **argv) {
         g_trials = 0;
         g_target_sig = (rv.inv == "sanitizer-report" || rv.inv == "worker-death") ? "" : rv.sig;
         size_t before = p.ops.size();
+        g_min_hang = rv.inv == "no-progress";
         Plan m = minimise(*pd, p, seed, rv.run, rv.inv);
         Final F; F.raw = rv; F.ops_before = before; F.ops_after = m.ops.size(); F.trials = g_trials; F.reproduced = false;
         Violation v; v.inv = rv.inv; v.op = rv.op; v.msg = rv.msg;
